@@ -114,7 +114,8 @@ pub fn random_call(_c: &Chain, cfg: &Cfg, rng: &mut Rng) -> Value {
     let (contract, k) = *rng.pick(&kinds);
     let ms = templates(contract, k, cfg, rng);
     let m = rng.pick(&ms).clone();
-    let mut s = if rng.chance(1, 2) { "owner" } else { *rng.pick(&SENDERS) };
+    // (either of the two owner identities: after a fresh instantiate or a hand-over the owner is "owner2")
+    let mut s = if rng.chance(1, 2) { *rng.pick(&["owner", "owner", "owner2"]) } else { *rng.pick(&SENDERS) };
     if outside_model(cfg, contract, k, s) {
         s = "usr1";
     }
